@@ -66,8 +66,17 @@ func checkFile(what string, b []byte, rep segment.Segment, wantMode uint32) erro
 	if f.chunkMode != r.ChunkMode() || f.chunkMode != wantMode {
 		return fmt.Errorf("%s: footer chunk mode %d, segment reports %d, requested %d", what, f.chunkMode, r.ChunkMode(), wantMode)
 	}
-	if f.storedIdx > uint64(len(b)) || f.fieldsIdx > uint64(len(b)) {
-		return fmt.Errorf("%s: footer offsets beyond the file", what)
+	// the fields index (one 8-byte address per field) immediately precedes the footer,
+	// and the stored index (one 8-byte offset per document) lies before it
+	nFields := uint64(len(rep.Fields()))
+	if want := uint64(len(b)) - footerSize - 8*nFields; f.fieldsIdx != want {
+		return fmt.Errorf("%s: footer fields index offset %d, but %d fields put the fields index at %d", what, f.fieldsIdx, nFields, want)
+	}
+	if f.storedIdx+8*f.numDocs > f.fieldsIdx {
+		return fmt.Errorf("%s: footer stored index offset %d (+%d documents) overlaps the fields index at %d", what, f.storedIdx, f.numDocs, f.fieldsIdx)
+	}
+	if f.numDocs > 0 && f.dvOffset != ^uint64(0) && (f.dvOffset < f.storedIdx || f.dvOffset > f.fieldsIdx) {
+		return fmt.Errorf("%s: footer doc value offset %d outside [stored index %d, fields index %d]", what, f.dvOffset, f.storedIdx, f.fieldsIdx)
 	}
 	return nil
 }
